@@ -45,7 +45,7 @@ theorem foldl_visitStep_extends (cfg : Cfg) (fs : FS) (rec : List APath → APat
 theorem visitOrder_extends (cfg : Cfg) (fs : FS) (fuel : Nat) (stack : List APath) (file spelled : APath) (acc : VisitAcc) :
     ∃ ext, (visitOrder cfg fs fuel stack file spelled acc).2 = acc.2 ++ ext := by
   induction fuel generalizing stack file spelled acc with
-  | zero => exact ⟨[], by simp [visitOrder]⟩
+  | zero => exact ⟨_, rfl⟩
   | succ n ih =>
     simp only [visitOrder]
     cases hf : fs.get file with
@@ -642,6 +642,100 @@ theorem front_ok_iff_programDiags (cfg : Cfg) (fs : FS) (builtins : Registry) (r
   · intro h
     rw [h] at hperm
     rw [if_pos hperm.eq_nil]
+
+/-! ### which diagnostics are rule violations, which are import diagnostics -/
+
+/-- the rule names of `Spec.declRules` -/
+def ruleNames : List String :=
+  ["unknown-type", "no-generics", "generic-arity", "param-error", "return-error", "throws-non-error", "unknown-target",
+   "flag-modifier", "deriving", "fn-field", "field-error", "field-interface", "ord-collection", "main-cpp",
+   "static-const", "static-cpp"]
+
+theorem mem_map_mk_rule {α : Type} {l : List α} {c r f : String} {g : α → Pos} {x : Diag}
+    (h : x ∈ l.map (fun a => mk c r f (g a))) : x.rule = r := by
+  obtain ⟨a, _, rfl⟩ := List.mem_map.mp h; rfl
+
+theorem mem_of_mem_ite {x : Diag} (b : Bool) (l : List Diag) (h : x ∈ (if b = true then l else [])) : x ∈ l := by
+  cases b
+  · cases h
+  · exact h
+
+theorem mem_of_mem_ite' {x : Diag} (b : Bool) (l : List Diag) (h : x ∈ (if b = true then [] else l)) : x ∈ l := by
+  cases b
+  · exact h
+  · cases h
+
+theorem unknownTargets_rule (e : SpecEnv) (f : String) (fl : List String) (p : Pos) (x : Diag)
+    (h : x ∈ unknownTargets e f fl p) : x.rule ∈ ruleNames := by
+  unfold unknownTargets at h
+  rw [mem_map_mk_rule h]; simp [ruleNames]
+
+theorem refRule_rule (e : SpecEnv) (f : String) (ns : List String) (t : TypeRef) (x : Diag)
+    (h : x ∈ refRule e f ns t) : x.rule ∈ ruleNames := by
+  cases t with
+  | fn sig pos => simp [refRule] at h
+  | data name args o pos =>
+    simp only [refRule] at h
+    split at h
+    · simp only [List.mem_singleton] at h; subst h; simp [ruleNames, mk]
+    · split at h
+      · simp only [List.mem_singleton] at h; subst h; simp [ruleNames, mk]
+      · split at h
+        · simp only [List.mem_singleton] at h; subst h; simp [ruleNames, mk]
+        · cases h
+
+theorem sigRules_rule (e : SpecEnv) (f : String) (ns : List String) (s : SigU) (x : Diag)
+    (h : x ∈ sigRules e f ns s) : x.rule ∈ ruleNames := by
+  unfold sigRules at h
+  simp only [List.mem_append] at h
+  rcases h with (h | h) | h
+  · rw [mem_map_mk_rule h]; simp [ruleNames]
+  · split at h
+    · split at h
+      · simp only [List.mem_singleton] at h; subst h; simp [ruleNames, mk]
+      · cases h
+    · cases h
+  · rw [mem_map_mk_rule h]; simp [ruleNames]
+
+theorem declRules_rule (e : SpecEnv) (f : String) (ns : List String) (d : Decl) (x : Diag)
+    (h : x ∈ declRules e f ns d) : x.rule ∈ ruleNames := by
+  unfold declRules at h
+  simp only [List.mem_append, List.mem_flatMap] at h
+  rcases h with ((⟨t, _, h⟩ | ⟨s, _, h⟩) | ⟨fp, _, h⟩) | h
+  · exact refRule_rule e f ns t x h
+  · exact sigRules_rule e f ns s x h
+  · exact unknownTargets_rule e f fp.1 fp.2 x h
+  · cases d with
+    | enum n c items pos => cases h
+    | function n c sig pos => cases h
+    | error n c codes pos => cases h
+    | flags n c items pos =>
+      rw [mem_map_mk_rule h]; simp [ruleNames]
+    | record n c fl fp fields der pos =>
+      simp only [List.mem_append] at h
+      rcases h with ((((h | h) | h) | h) | h) | h
+      · exact unknownTargets_rule e f fl fp x h
+      · rw [mem_map_mk_rule h]; simp [ruleNames]
+      · rw [mem_map_mk_rule h]; simp [ruleNames]
+      · rw [mem_map_mk_rule h]; simp [ruleNames]
+      · rw [mem_map_mk_rule h]; simp [ruleNames]
+      · rw [mem_map_mk_rule (mem_of_mem_ite _ _ h)]; simp [ruleNames]
+    | interface n c main fl fp methods props pos =>
+      simp only [List.mem_append] at h
+      rcases h with ((h | h) | h) | h
+      · exact unknownTargets_rule e f fl fp x h
+      · have h' := mem_of_mem_ite _ _ h
+        simp only [List.mem_singleton] at h'; subst h'; simp [ruleNames, mk]
+      · rw [mem_map_mk_rule h]; simp [ruleNames]
+      · rw [mem_map_mk_rule (mem_of_mem_ite' _ _ h)]; simp [ruleNames]
+
+/-- every diagnostic of `violations` carries one of the rule names of the language rules -/
+theorem violations_rule (keys dd : List String) (R : Registry) (p : List ProgFile) (x : Diag)
+    (h : x ∈ violations keys dd R p) : x.rule ∈ ruleNames := by
+  unfold violations at h
+  simp only [List.mem_flatMap] at h
+  obtain ⟨y, _, h⟩ := h
+  exact declRules_rule _ _ _ _ x h
 
 instance (cfg : Cfg) (v : Visit) : Decidable (VisitOk cfg v) := by
   cases v <;> unfold VisitOk <;> infer_instance
